@@ -44,6 +44,25 @@ def check_gate_body(ctx, b, kind):
             ok = ok and any(kd == 'le' and util.is_param(rhs, 3) and _is_norm_of_diff(strip(lhs), 1, 2, ('vector',)) for kd, lhs, rhs in conds)
         ctx.check(ok, 'R01.3', key, b.where(0), b.path, 'the position gate must be norm(a - b) <= tolerance on its two arguments',
                   found=[show(x[0], maxdepth=5) for x in rv], detail='norm(a - b) <= tol')
+        # .. and it must say so positively: J6 of a 5-DOF candidate is the caller's value and passes no finiteness test, so a
+        # NaN distance has to fail the gate. `d <= tol` is false for NaN; `!(d > tol)` is true for NaN.
+        positive = True
+        for t, d, rb in rv:
+            t = strip(t)
+            if util.const_val(t) in (0, False):
+                continue
+            ev = [(strip(g), opw.truth(k)) for g, k, sw in b.guard_terms(d[1])] + ([(t, True)] if util.const_val(t) is None else [])
+            held = False
+            for g, v in ev:
+                if isinstance(g, tuple) and g[0] == 'bin' and v is True:
+                    if g[1] in ('Le', 'Lt') and _is_norm_of_diff(strip(g[2]), 1, 2, ('vector',)) and util.is_param(g[3], 3):
+                        held = True
+                    if g[1] in ('Ge', 'Gt') and _is_norm_of_diff(strip(g[3]), 1, 2, ('vector',)) and util.is_param(g[2], 3):
+                        held = True
+            positive = positive and held
+        ctx.check(positive, 'R01.3', key + '/nan-safe', b.where(0), b.path,
+                  'the position gate must hold positively (`distance <= tolerance` evaluated true): written as the failure of `distance > tolerance` it lets a NaN '
+                  'distance pass, and the J6 of a 5-DOF candidate is not checked for finiteness anywhere else', found=[show(x[0], maxdepth=5) for x in rv], detail='positive comparison')
         return
     paths = util.true_conditions(b)
     ok = len(paths) >= 1 and None not in paths
